@@ -131,6 +131,7 @@ pub struct Walk {
     session_ok: bool,
     /// what the independent decoder reads from the entries of the last `load` (C02)
     loaded: Option<BTreeMap<String, (Vec<ColDef>, Vec<Vec<V>>)>>,
+    loaded_pt: Option<usize>,
     loaded_summary: Option<BTreeMap<u32, decode::PVal>>,
     loaded_streams: BTreeMap<String, String>,
     is_foreign: bool,
@@ -142,7 +143,7 @@ impl Walk {
             out: vec![], checked: 0, nontrivial: HashSet::new(), db: RefDb::default(), db_known: false,
             last_snap: None, ok_mutation_since_snap: false, before_reopen: None, after_reopen: false,
             streams: BTreeMap::new(), streams_known: false, summary: BTreeMap::new(), summary_known: false,
-            session_ok: false, loaded: None, loaded_summary: None, loaded_streams: BTreeMap::new(), is_foreign: false,
+            session_ok: false, loaded: None, loaded_pt: None, loaded_summary: None, loaded_streams: BTreeMap::new(), is_foreign: false,
         }
     }
     fn fail(&mut self, tags: &[&'static str], i: usize, q: &str, r: &str, why: String) {
@@ -200,6 +201,7 @@ impl Walk {
                     if let Ok(d) = decode::decode(&entries) {
                         if d.problems.is_empty() && t[1] != "none" {
                             self.loaded = Some(decode::expected_tables(&d));
+                            self.loaded_pt = t[1].parse().ok();
                             self.loaded_summary = entries.iter().find(|e| e.0 == "\u{5}SummaryInformation").and_then(|e| decode::parse_propset(&e.1));
                             for (n, data) in &entries {
                                 let (dn, is_table) = decode::unpack_name(n);
@@ -417,7 +419,7 @@ impl Walk {
             }
             "reopen" => {
                 if r != "ok" {
-                    self.fail(&["C01", "C20"], i, q, r, "the saved package does not reopen".into());
+                    self.fail(&["C01", "C20", "C08"], i, q, r, "the saved package does not reopen (the library cannot decode the file it wrote)".into());
                     self.session_ok = false;
                 } else {
                     // only a snapshot taken right before closing (no successful change since) says
@@ -553,6 +555,12 @@ impl Walk {
         if let Some(exp) = self.loaded.take() {
             // C02: opening reports exactly the encoded tables, column definitions and rows
             let failures_before = self.out.len();
+            if let Some(pt) = self.loaded_pt.take() {
+                if snap.pt != pt {
+                    let names = ["installer", "patch", "transform"];
+                    self.fail(&["C02"], i, q, r, format!("the root class id of the file marks it as {} package, reported as {}", names[pt.min(2)], names[snap.pt.min(2)]));
+                }
+            }
             let have: Vec<&String> = snap.tables.keys().filter(|n| *n != "_Tables" && *n != "_Columns").collect();
             let want: Vec<&String> = exp.keys().collect();
             if have != want {
